@@ -2,7 +2,7 @@
    Model/Graph.v IS the text-level semantics (a state is the list of the lines of the Gfa; an operation edits that list),
    tied to the implementation by the correspondence run on generated histories.  Proved here: what rm deletes. *)
 From Coq Require Import List String Ascii ZArith Bool.
-From GfaV Require Import Base.Py Gen.Tables Model.Codec Model.Graph Proofs.GraphP Proofs.RenameP.
+From GfaV Require Import Base.Py Gen.Tables Model.Codec Model.Graph Proofs.GraphP Proofs.RenameP Proofs.FrameP Proofs.MergeFrameP.
 Import ListNotations.
 Open Scope string_scope.
 
@@ -67,6 +67,20 @@ Theorem C05_rename_leaves_other_mentions : forall old new l,
   mentions (ren old new l) = mentions l.
 Proof. exact ren_untouched. Qed.
 Print Assumptions C05_rename_leaves_other_mentions.
+
+(* frame of a removal: whatever is removed, no other segment goes (a segment depends on nothing); frame of an
+   addition: every line that is not a placeholder stays as it is when a line that is not a group is connected *)
+Theorem C05_removal_keeps_other_segments : forall s y s',
+  ids_ok s -> In y (lines s) -> disconnect s y = Ok s' ->
+  forall x, In x (lines s) -> is_segment x = true -> g_id x <> g_id y -> In x (lines s').
+Proof. exact disconnect_keeps_segments. Qed.
+Print Assumptions C05_removal_keeps_other_segments.
+
+Theorem C05_addition_keeps_every_record : forall s l s',
+  ids_ok s -> g_rk l <> KO -> g_rk l <> KU -> connect s l = Ok s' ->
+  (forall x, In x (lines s) -> g_virtual x = false -> In x (lines s')) /\ ids_ok s'.
+Proof. exact connect_keeps. Qed.
+Print Assumptions C05_addition_keeps_every_record.
 
 Example C05_witness :
   let t := String tab EmptyString in
